@@ -59,14 +59,17 @@ package schema
 //@   assert before invoke:EmptyCompletionData#1 : [C06] arg1 == nextPlaceholder
 //@   ensures [C06] implies(hasText(result), result.NextPlaceholder >= nextPlaceholder)
 //@   ensures [C06] implies(result.NextPlaceholder != nextPlaceholder + 1, result.NextPlaceholder == elemData.NextPlaceholder)
+//@   ensures [C06] implies(hasText(result) && hasText(elemData), result.NextPlaceholder == elemData.NextPlaceholder)
 //@ contract (schema.Set).EmptyCompletionData (s, ctx, nextPlaceholder, nestingLevel) (result)
 //@   assert before invoke:EmptyCompletionData#1 : [C06] arg1 == nextPlaceholder
 //@   ensures [C06] implies(hasText(result), result.NextPlaceholder >= nextPlaceholder)
 //@   ensures [C06] implies(result.NextPlaceholder != nextPlaceholder + 1, result.NextPlaceholder == elemData.NextPlaceholder)
+//@   ensures [C06] implies(hasText(result) && hasText(elemData), result.NextPlaceholder == elemData.NextPlaceholder)
 //@ contract (schema.Map).EmptyCompletionData (m, ctx, nextPlaceholder, nestingLevel) (result)
 //@   assert before invoke:EmptyCompletionData#1 : [C06] arg1 == nextPlaceholder + 1
 //@   ensures [C06] implies(hasText(result), result.NextPlaceholder >= nextPlaceholder + 1)
 //@   ensures [C06] implies(result.NextPlaceholder != nextPlaceholder + 1, result.NextPlaceholder == elemData.NextPlaceholder)
+//@   ensures [C06] implies(hasText(result) && hasText(elemData), result.NextPlaceholder == elemData.NextPlaceholder)
 //@ contract (schema.OneOf).EmptyCompletionData (o, ctx, nextPlaceholder, nestingLevel) (result)
 //@   assert before invoke:EmptyCompletionData#1 : [C06] arg1 == nextPlaceholder
 //@   ensures [C06] implies(hasText(result), result.NextPlaceholder >= nextPlaceholder)
@@ -80,3 +83,21 @@ package schema
 //@   ensures [C06] implies(ok, result.NextPlaceholder >= placeholder)
 //@ contract (schema.Object).EmptyCompletionData (o, ctx, placeholder, nestingLevel) (result)
 //@   ensures [C06] implies(hasText(result), result.NextPlaceholder >= placeholder)
+
+// ---- every element is examined: the loops below have no break and no return inside, i.e. they are left only
+// ---- when their range is exhausted (generated from the control-flow graph of the pinned tree with
+// ---- `govc loops`; tagged with the properties anchored in the function's file). An added early exit in a
+// ---- collecting loop silently drops the remaining elements.
+//@ loop-complete (schema.LiteralType).EmptyCompletionData 1 C06
+//@ loop-complete (schema.LiteralType).EmptyCompletionData 2 C06
+//@ loop-complete (schema.LiteralType).EmptyHoverData 1 C06
+//@ loop-complete (schema.LiteralType).EmptyHoverData 2 C06
+//@ loop-complete (schema.LiteralValue).EmptyCompletionData 5 C06
+//@ loop-complete (schema.LiteralValue).EmptyHoverData 5 C06
+//@ loop-complete (schema.OneOf).FriendlyName 1 C06
+//@ loop-complete (schema.OneOf).Validate 1 C06
+//@ loop-complete schema.NestedTargetablesForValue 1 C09
+//@ loop-complete schema.NestedTargetablesForValue 2 C09
+//@ loop-complete schema.NestedTargetablesForValue 3 C09
+//@ loop-complete schema.sortedObjectExprAttrNames 1 C06
+//@ loop-complete schema.sortedValueMap 1 C06
